@@ -290,6 +290,22 @@ pub fn ext_tables(patterns: &[String], hays: &[String], num_texts: &[String]) ->
         if !seen.insert(p.clone()) {
             continue;
         }
+        if hays.is_empty() {
+            // only validity is needed: remember it (the same literals recur in hundreds of thousands of cases)
+            thread_local! { static VALID: std::cell::RefCell<std::collections::HashMap<String, bool>> = std::cell::RefCell::new(std::collections::HashMap::new()); }
+            let ok = VALID.with(|c| {
+                let mut c = c.borrow_mut();
+                if let Some(b) = c.get(p) {
+                    *b
+                } else {
+                    let b = regex::Regex::new(p).is_ok();
+                    c.insert(p.clone(), b);
+                    b
+                }
+            });
+            rx.push(json!([p, ok, []]));
+            continue;
+        }
         match regex::Regex::new(p) {
             Ok(re) => {
                 let mut hs = vec![];
